@@ -22,7 +22,7 @@ TIERS = {
 REQUIRED_BUCKETS = ['section:none-marker', 'section:scoped', 'section:provider', 'section:macro', 'section:constant-omitted', 'param:default-shown',
                     'param:binding-shown', 'param:caller-supplied-omitted', 'param:caller-supplied-once-gin-once', 'param:denylisted-default-omitted',
                     'param:nonrepresentable-omitted', 'param:nonrepresentable-default-omitted', 'replay:done', 'history:rebind', 'history:5+calls',
-                    'shape:method', 'shape:init', 'shape:fn', 'override:keyword-on-reference', 'never-called-configurable-bound']
+                    'shape:method', 'shape:init', 'shape:fn', 'override:keyword-on-reference', 'never-called-configurable-bound', 'history:failed-call-on-unbound-macro']
 ORACLE_COUNTERS = ['oracle_evals', 'texts_compared', 'replays']
 _S = {}
 HDR = re.compile(r'^# Parameters for (.+):$')
@@ -448,6 +448,24 @@ def run_case(ctx, case):
          tuple(sorted(feats)), tuple(sorted({tuple(h[2]) for h in case['history'] if h[0] == 'call'})), ncalls,
          tuple(tuple(sorted(h[3].items())) for h in case['history'] if h[0] == 'call'))
   ctx.sample({'specs': case['specs'], 'history': case['history'], 'operative_text': text[:700]}, cap=2)
+
+  # ---- a failed call (macro without a value) must not break the operative config string
+  if ctx.case_no % 4 == 0:
+    ctx.bucket('history:failed-call-on-unbound-macro')
+    with gin.unlock_config():
+      gin.parse_config('c7never.z = %c7_macro_without_value')
+    try:
+      _S['never'].conf()
+      ctx.check(False, 'unbound-macro-use-succeeded', 'a call using a macro without value succeeded')
+    except Exception:  # pylint: disable=broad-except
+      pass
+    try:
+      t3 = gin.operative_config_str()
+      snap.parse_text(t3)
+      ctx.count('oracle_evals')
+    except Exception as e:  # pylint: disable=broad-except
+      ctx.check(False, 'operative-config-str-raises', 'after a failed call on an unbound macro operative_config_str() raised/does not parse: %r' % (e,))
+    return
 
   # ---- replay
   rebinds = any(h[0] == 'rebind' for h in case['history'])
